@@ -138,11 +138,18 @@ def const_value(e):
 class Resolver:
     """Resolve operands / places of one body into expression trees."""
 
-    def __init__(self, body, keep_refs=False):
+    def __init__(self, body, keep_refs=False, opaque_mut_borrowed=False):
         self.body = body
         self.du = defuse(body)
         self.keep_refs = keep_refs
         self.is_closure = body.kind == "Closure"
+        # locals whose address is taken mutably can change behind the resolver's back: optionally keep them opaque
+        self.opaque = set()
+        if opaque_mut_borrowed:
+            for blk in body.blocks:
+                for st in blk["st"]:
+                    if st["k"] == "assign" and st["rv"]["k"] == "ref" and st["rv"].get("bk") == "mut" and "p" not in st["rv"]["place"]:
+                        self.opaque.add(st["rv"]["place"]["l"])
 
     # -- places ---------------------------------------------------------------------------------
     def place(self, p, at, depth=0, seen=()):
@@ -181,7 +188,7 @@ class Resolver:
     def local(self, l, at, depth=0, seen=()):
         body = self.body
         name = body.local_name(l)
-        if depth > MAX_DEPTH:
+        if depth > MAX_DEPTH or l in self.opaque:
             return ('local', l, name)
         ds = self.du.reaching(l, at) if at is not None else self.du.defs.get(l, [])
         if not ds:
